@@ -530,7 +530,13 @@ def eam_api_vs_spec(chk, rule, P, modname, funcname, specname, opts=None):
     args = [nsym("nrho"), nsym("drho"), nsym("nr"), nsym("dr"), param("eam_potentials"), param("potentials")]
     I = make_interp(P, elem=EAM_ELEM)
     fp = BufV("fp", is_file=True)
-    I.run(P.func(modname, funcname), args + [fp])
+    fi = P.func(modname, funcname)
+    rest = fi.params()[len(args) + 1:]
+    if rest:
+        # honest scope: options of the entry point that this rule leaves at their defaults are not explored
+        chk.assume("%s(...): optional parameter(s) %s keep their default value (behaviour under other values is not decided by this rule)"
+                   % (funcname, ", ".join(rest)))
+    I.run(fi, args + [fp])
     found = out_tree(fp)
     J = make_interp(P, elem=EAM_ELEM)
     fp2 = BufV("fp", is_file=True)
